@@ -204,6 +204,35 @@ Proof.
   repeat split; vm_compute; reflexivity.
 Qed.
 
+(* the object read back is the LAST one written under the key (no write is skipped, whatever
+   was stored there before), also with writes to another key in between *)
+Theorem c19_cloud_overwrite :
+  forall (R : Type) (ser : R -> list N) (de : list N -> option R)
+         (enc : codec -> list N -> list N) (dec : codec -> list N -> option (list N)),
+    (forall c b, dec c (enc c b) = Some b) ->
+    forall (st : store) (k1 k2 : list N) (a a2 b : list R),
+      k1 <> k2 -> Forall (record_ok R ser de) b -> Forall (record_ok R ser de) a2 ->
+      cloud_read de dec (cloud_write ser enc (cloud_write ser enc st k1 a) k1 b) k1 = Ok b /\
+      let st' := cloud_write ser enc (cloud_write ser enc (cloud_write ser enc st k1 a) k2 a2) k1 b in
+      cloud_read de dec st' k1 = Ok b /\ cloud_read de dec st' k2 = Ok a2.
+Proof.
+  intros R ser de enc dec Hd st k1 k2 a a2 b Hne Hb Ha2. split.
+  - exact (cloud_overwrite R ser de enc dec Hd st k1 a b Hb).
+  - exact (cloud_overwrite_interleaved R ser de enc dec Hd st k1 k2 a a2 b Hne Hb Ha2).
+Qed.
+
+Example c19_cloud_overwrite_ex :
+  let st := cloud_write ex_ser ex_enc
+              (cloud_write ex_ser ex_enc
+                 (cloud_write ex_ser ex_enc [] (str "k.gz") [true; true])
+                 (str "other") [false])
+              (str "k.gz") [false; false] in
+  str "k.gz" <> str "other" /\
+  cloud_read ex_de ex_dec st (str "k.gz") = Ok [false; false] /\
+  cloud_read ex_de ex_dec st (str "other") = Ok [false] /\
+  map fst st = [str "k.gz"; str "other"].
+Proof. cbv zeta. split; [discriminate|]. repeat split; vm_compute; reflexivity. Qed.
+
 (* a write leaves every other object as it was *)
 Theorem c19_cloud_write_frame :
   forall (R : Type) (ser : R -> list N) (de : list N -> option R)
